@@ -133,6 +133,7 @@ def adjudicate(rep, records, owned, *, trace_module="Trace_Codec", nontrivial=No
         r["id"] = i
     verdicts, stats = tlc.validate_batch(trace_module, ok)
     rep.traces += len(verdicts)
+    corruption_selftest(rep, ok, verdicts, trace_module)
     rep.extra.setdefault("trace_tlc_states", 0)
     rep.extra["trace_tlc_states"] += stats["tlc_states"]
     for r in ok:
@@ -181,6 +182,52 @@ def adjudicate(rep, records, owned, *, trace_module="Trace_Codec", nontrivial=No
     if planned and drift > planned // 4 and not any("PlanSpec predicts" in x for x in rep.notes):
         rep.notes.append(f"the generated source of {drift} of {planned} compiled structures does not have the shape PlanSpec predicts: the "
                          "translation check (source text -> plan) is not binding for them (behaviour is still compared with Decode)")
+
+
+def corruption_selftest(rep, ok, verdicts, trace_module):
+    """Vacuity guard of the trace specification (run once per check): accepted records are copied with ONE observed fact changed
+    - the stream position after the parse, or one integer leaf of the parsed value - and judged again; every copy must be rejected."""
+    import copy
+
+    if rep.extra.get("corruption_selftest") or trace_module != "Trace_Codec":
+        return
+
+    def first_int(v):
+        if isinstance(v, dict):
+            if v.get("k") == "int" and "mag" in v:
+                return v
+            for x in v.values():
+                r = first_int(x)
+                if r is not None:
+                    return r
+        elif isinstance(v, list):
+            for x in v:
+                r = first_int(x)
+                if r is not None:
+                    return r
+        return None
+
+    picked = [r for r in ok if r.get("kind") == "parse" and not verdicts.get(r["id"]) and r.get("obs", {}).get("res", {}).get("status") == "ok"][:8]
+    bad = []
+    for r in picked:
+        c = copy.deepcopy(r)
+        c["obs"]["res"]["pos"] += 1
+        bad.append(("pos", c))
+        c = copy.deepcopy(r)
+        leaf = first_int(c["obs"]["res"]["v"])
+        if leaf is not None:
+            leaf["mag"] = [1] if not leaf["mag"] else [leaf["mag"][0] ^ 1 or 2] + leaf["mag"][1:]
+            bad.append(("value", c))
+    if not bad:
+        return
+    for i, (_, c) in enumerate(bad):
+        c["id"] = i
+    v2, _ = tlc.validate_batch(trace_module, [c for _, c in bad])
+    silent = [what for i, (what, c) in enumerate(bad) if not [x for x in v2[i] if not x.startswith(("DRIFT", "SKIP"))]]
+    if silent:
+        raise MachineryError(f"corruption self-test: {len(silent)} of {len(bad)} records with a changed {set(silent)} were ACCEPTED by {trace_module}: "
+                             "the trace specification does not constrain what it is given")
+    rep.extra["corruption_selftest"] = f"{len(bad)} accepted records re-judged with one observed fact changed (position / one integer leaf): all rejected"
 
 
 def finding_f16(r, verdict, failed):
